@@ -21,6 +21,8 @@ THEOREMS = [(M, "NQ.C03." + n) for n in [
     "source_operand_text_roundtrip", "replaceConstants_preserves_reserved", "reserved_not_scratch",
     "reserved_preserved", "F42_reserved_witness",
     "assemble_pure", "assemble_twice", "imm_exempt",
+    "front_syms", "text_syms_ok", "parse_render_program", "parse_render_program_canon",
+    "parse_render_with_macros", "text_assemble_simulates", "nonvacuous_text",
 ]]
 TRANSLATORS = ["instr_table", "asm_pass_tables"]
 LEVEL_TEXT = (
@@ -44,7 +46,10 @@ LEVEL_TEXT = (
     "in the source (top level, entry index, slice bounds) nor reserved, operand patching and label targets. "
     "IR as programs build it (shared ICmd / operands-list / ArrayEntry objects, a container with a copying "
     "`commands` accessor, the same ProtoSubroutine assembled twice) must assemble like the IR with fresh objects; "
-    "`assemble_twice` proves the model's fixed-point property.")
+    "`assemble_twice` proves the model's fixed-point property. Text: `parse_render_program` — the model of "
+    "`parse_text_protosubroutine` (split, preamble, macros, body lines with labels / bracketed args / every "
+    "operand form) reads back every rendered proto program with blank and comment-only lines anywhere; the "
+    "model is tied to the code by the differential stream `asm.parsetext` (equal proto or same error class).")
 LEVEL_NOTE = (
     "Trusted: Lean kernel; translator + harness; the hand-written role table of the 21 classical/array/"
     "allocation instructions (which operand positions are read / written / immediate / target), validated "
@@ -388,7 +393,7 @@ def run(ctx):
             res.samples.append({"text": text})
     # whole front end: `parse_text_protosubroutine` vs the model `AsmFront.parseTextProto`
     front_texts = []
-    for _ in range(n_text):
+    for _ in range(3 * n_text // 4):
         p = H.gen_std_program(rng, max_len=8) if rng.random() < 0.7 else H.gen_wild_program(rng, max_len=6)
         wild = rng.random() < 0.35
         if not wild:
